@@ -248,4 +248,8 @@ def _trigger_actions_post(S_):
     return Implies(Not(Val.is_VNone(r)), And(args_ok, S_.is_fresh(acts, "list"), *cases))
 
 
-c.ens("actions-are-the-builders-results", _trigger_actions_post)
+c.exit_check(lambda S_, kind: [("actions-are-the-builders-results", "LOG", _trigger_actions_post(S_), ["C11"])]
+             if kind == "return" else [])
+c.ens("actions-is-a-new-list-of-actions", lambda S_: Implies(Not(Val.is_VNone(S_.result)), And(
+    S_.is_fresh(S_.new.f(S_.result, "Trigger.__actions"), "list"),
+    S_.elems(S_.new.f(S_.result, "Trigger.__actions"), OBJ("LocationAction")))))
